@@ -668,8 +668,36 @@ func runC11(c *Collector, r *Rng, thorough bool) {
 	// decoded message, real positional semantics with spies
 	for i := 0; i < 30; i++ {
 		t := genSignMsgTree(r, GenCfg{MaxEntries: 3, ValDepth: 1, NoAlg: false})
-		d := decodeKind("DSignMsg", t.Ser())
-		if d.err != nil || d.sm.Payload == nil {
+		// the same COSE_Signature more than once ([A,A], [A,B,A], ...): positions are what the wire says
+		if sigs := t.Kids[0].Kids[3]; i%3 == 0 && sigs.Maj == 4 && len(sigs.Kids) > 0 {
+			a := sigs.Kids[0]
+			b := sigs.Kids[len(sigs.Kids)-1]
+			sigs.Kids = pick(r, [][]*W{{a, a}, {a, b, a}, {a, a, b}, {b, a, a, a}})
+		}
+		var d decoded
+		if i%3 == 0 {
+			d = decodeCase(c, "decode/repeated-signature", "DSignMsg", t.Ser())
+		} else {
+			d = decodeKind("DSignMsg", t.Ser())
+		}
+		if d.err != nil || d.paniced {
+			continue
+		}
+		if w, err := refParseFull(t.Ser()); err == nil {
+			wire := w.Kids[0].Kids[3].Kids
+			rep := map[string]any{"data": hx(t.Ser())}
+			if len(d.sm.Signatures) != len(wire) {
+				c.Fail("C11/decoded-count", fmt.Sprintf("the message carries %d COSE_Signature entries, the decoded message has %d", len(wire), len(d.sm.Signatures)), rep)
+				continue
+			}
+			for j, sgn := range d.sm.Signatures {
+				if sgn == nil || !bytes.Equal(sgn.Signature, wire[j].Kids[2].Str) || !bytes.Equal(stripBstrHead(sgn.Headers.RawProtected), wire[j].Kids[0].Str) {
+					c.Fail("C11/decoded-position", fmt.Sprintf("decoded signature %d is not the %d-th COSE_Signature of the message", j, j), rep)
+					break
+				}
+			}
+		}
+		if d.sm.Payload == nil {
 			continue
 		}
 		var vfs []*spyVerifier
@@ -1018,6 +1046,45 @@ func runC20(c *Collector, r *Rng, thorough bool) {
 			c.Fail("C20/verifier-error-not-propagated", "SignMessage.Verify lost the verifier error", map[string]any{"op": op})
 		}
 	}
+	// ---- COSE_Sign: every assignment of {succeeds, ErrVerification, other error} to the verifiers of n <= 4 signers:
+	// the first error (by position) is what Verify returns, nothing after it is consulted, success only if all succeed ----
+	vopts := []error{nil, cose.ErrVerification, errScripted}
+	valgs := []cose.Algorithm{-7, -35, -36, -8}
+	for n := 1; n <= 4; n++ {
+		total := 1
+		for j := 0; j < n; j++ {
+			total *= len(vopts)
+		}
+		for code := 0; code < total; code++ {
+			sm := &cose.SignMessage{Headers: hdr(0), Payload: []byte("p")}
+			delete(sm.Headers.Protected, cose.HeaderLabelAlgorithm)
+			var vfs []*spyVerifier
+			first := -1
+			for j, cd := 0, code; j < n; j, cd = j+1, cd/len(vopts) {
+				sm.Signatures = append(sm.Signatures, &cose.Signature{Headers: hdr(valgs[j]), Signature: []byte{byte(j + 1)}})
+				vfs = append(vfs, &spyVerifier{alg: valgs[j], err: vopts[cd%len(vopts)]})
+				if first < 0 && vopts[cd%len(vopts)] != nil {
+					first = j
+				}
+			}
+			op, obs, err, p := execVerifyMsg(sm, nil, vfs)
+			if p {
+				c.Fail("C20/panic", "SignMessage.Verify panicked", map[string]any{"op": trunc(op, 500)})
+				continue
+			}
+			addCase(c, fmt.Sprintf("verifymsg/fault-vector/n=%d", n), op, obs, true)
+			rep := map[string]any{"op": trunc(op, 900), "n": n, "first_failing": first}
+			if first < 0 {
+				if err != nil {
+					c.Fail("C20/verifier-success-not-propagated", "every verifier succeeded but SignMessage.Verify returned "+err.Error(), rep)
+				}
+				continue
+			}
+			if err == nil || !errors.Is(err, vfs[first].err) {
+				c.Fail("C20/verifier-error-not-propagated", fmt.Sprintf("verifier %d of %d returned %v, SignMessage.Verify returned %v", first, n, vfs[first].err, err), rep)
+			}
+		}
+	}
 	// ---- the fault below the cose.Signer: a crypto.Signer (HSM / KMS adapter) that returns no bytes and no error,
 	// or an error, wrapped by the built-in RSA-PSS / ECDSA / Ed25519 signers ----
 	{
@@ -1192,4 +1259,13 @@ func (f *faultyCryptoSigner) Sign(io.Reader, []byte, crypto.SignerOpts) ([]byte,
 		return nil, errScripted
 	}
 	return []byte{1, 2, 3}, errScripted
+}
+
+// stripBstrHead returns the content of a CBOR byte string given with its head (nil if it is not one).
+func stripBstrHead(b []byte) []byte {
+	w, err := refParseFull(b)
+	if err != nil || w.Maj != 2 {
+		return nil
+	}
+	return w.Str
 }
